@@ -44,7 +44,9 @@ ASSUMPTIONS = [
     "an exception escaping pump_proxy_event is tolerated (the run loop logs and continues) as long as the flow is handed back",
 ]
 MUST_REACH = {"scenarios": 40, "failpoint_runs": 500, "clean_runs": 40, "taken_flows_released": 30, "state_transfers_compared": 500,
-              "exceptions_escaped_pump": 50, "mitm_side_runs": 6, "e2e_runs": 100, "e2e_states_compared": 150, "session_only_capdata": 5, "locally_served_assets": 3, "line_failpoint_runs": 300, "mitm_history_runs": 6, "owners_gone_before_release": 10}
+              "exceptions_escaped_pump": 50, "mitm_side_runs": 6, "e2e_runs": 100, "e2e_states_compared": 150, "session_only_capdata": 5, "locally_served_assets": 3, "line_failpoint_runs": 300, "mitm_history_runs": 6, "owners_gone_before_release": 10,
+              "deferred_releases": 100, "deferred_events_covered": 7, "deferred_webapp_flows": 5, "waiter_served_flows": 5,
+              "waiter_abandoned_scenarios": 15}
 
 FAIL = {"armed_at": None, "count": 0, "in_handler": 0, "points": [], "fired": None}
 TOOL_ID = 3
@@ -644,11 +646,247 @@ def mitm_side(ctx):
         end_to_end(ctx, k, b, on, ua)
 
 
+
+# ------------------------------------------------------------------ flows released later by an addon's own task
+
+DEFERRED_EVENTS = ["none", "region_changed", "region_registered", "circuit_created", "other_flow", "other_session_closed",
+                   "region_changed_twice"]
+
+
+def deferred_release(ctx, kind, event_type, scope, between, yields, use_webapp):
+    """The way real addons hold on to a flow: take it in the hook, answer it from a task scheduled through the addon API (the
+    default session+addon scoped task, or an unscoped one), release it when the task gets there.  While the task is pending
+    the session's life goes on - the avatar moves to another region, a neighbour region registers, another flow passes
+    through, another avatar's session ends.  None of that owns the flow: it is handed back exactly once all the same."""
+    from hippolyzer.lib.proxy.addon_utils import BaseAddon
+    from hippolyzer.lib.proxy.addons import AddonManager
+    state = {"taken": 0, "resumed": 0}
+
+    class TaskAddon(BaseAddon):
+        def _take(self, flow):
+            if flow.cap_data is None or flow.cap_data.cap_name in (None, "") and kind != "unknown":
+                pass
+            taken = flow.take()
+            state["taken"] += 1
+            sess = flow.cap_data.session() if flow.cap_data and flow.cap_data.session else None
+
+            async def later():
+                for _ in range(yields):
+                    await asyncio.sleep(0)
+                state["resumed"] += 1
+                taken.resume()
+            if scope == "unscoped" or sess is None:
+                self._schedule_task(later(), session_scoped=False, addon_scoped=False)
+            else:
+                self._schedule_task(later(), session=sess)
+
+        def handle_http_request(self, session_manager, flow):
+            if event_type == "request" and flow.id == state.get("flow_id"):
+                self._take(flow)
+
+        def handle_http_response(self, session_manager, flow):
+            if event_type == "response" and flow.id == state.get("flow_id"):
+                self._take(flow)
+
+    addons = [TaskAddon()]
+    if use_webapp:
+        # the library's own user of this pattern: a cap served by an ASGI app inside a scheduled task
+        from hippolyzer.lib.proxy.webapp_cap_addon import WebAppCapAddon
+        import mitmproxy.ctx
+
+        async def app(scope_, receive, send):
+            await receive()
+            await asyncio.sleep(0)
+            await send({"type": "http.response.start", "status": 200, "headers": [(b"content-type", b"text/plain")]})
+            await send({"type": "http.response.body", "body": b"served by the web app"})
+
+        class HVWebApp(WebAppCapAddon):
+            CAP_NAME = "HippoFake"
+            APP = staticmethod(app)
+        addons = [HVWebApp()]
+        if not hasattr(mitmproxy.ctx, "master"):
+            mitmproxy.ctx.master = None
+    rig = HTTPRig(addons=addons)
+    wit = {"kind": kind, "event": event_type, "task_scope": scope, "between": between, "yields": yields, "webapp": use_webapp}
+    try:
+        session, flow = build(rig, kind, event_type)
+        state["flow_id"] = flow.id
+        q = rig.flow_context.to_proxy_queue
+        q.log.clear()
+        q.items.clear()
+        rig.send_event(event_type, flow)
+        exc = rig.pump()
+        if exc is not None:
+            ctx.violation("deferred:pump-raised", "handling an intercepted flow raised", dict(wit, exc=repr(exc)[:200]))
+            return
+        early = [it for it in q.log if it[0] == "callback" and it[1] == flow.id]
+        if not use_webapp and not state["taken"]:
+            ctx.count("deferred_flow_never_reached_addon")
+            return
+        if use_webapp and early:
+            ctx.count("deferred_webapp_not_taken")
+            return
+        if early and state["resumed"] == 0:
+            ctx.violation("taken-flow-handed-back-early", "a flow an addon took ownership of was handed back before the addon "
+                          "released it", dict(wit, callbacks=len(early)))
+            return
+        # ---- life goes on while the task is pending
+        region = session.main_region or session.regions[0]
+        try:
+            if between in ("region_changed", "region_changed_twice"):
+                AddonManager.handle_region_changed(session, session.regions[-1])
+                if between == "region_changed_twice":
+                    rig.loop.run_until_complete(asyncio.sleep(0))
+                    AddonManager.handle_region_changed(session, session.regions[0])
+            elif between == "region_registered":
+                session.register_region(("10.1.0.9", 13009), seed_url="https://sim1.example.invalid:12043/cap/seed-ninth")
+            elif between == "circuit_created":
+                AddonManager.handle_circuit_created(session, region)
+            elif between == "other_flow":
+                other = make_flow("https://elsewhere.example.invalid/x")
+                rig.send_event("request", other)
+                rig.pump()
+            elif between == "other_session_closed":
+                for s2 in list(rig.session_manager.sessions):
+                    if s2 is not session:
+                        rig.session_manager.close_session(s2)
+                        break
+        except Exception as e:
+            ctx.violation("deferred:event-raised", "an ordinary session event raised while a flow was held", dict(wit, exc=repr(e)[:200]))
+            return
+        for _ in range(yields + 12):
+            rig.loop.run_until_complete(asyncio.sleep(0))
+        callbacks = [it for it in q.log if it[0] == "callback" and it[1] == flow.id]
+        if len(callbacks) != 1:
+            ctx.violation("deferred-flow-not-handed-back-once:" + ("never" if not callbacks else "more-than-once") + ":" + between,
+                          "a flow whose addon releases it from a scheduled task was not handed back exactly once",
+                          dict(wit, callbacks=len(callbacks), task_ran_to_release=state["resumed"]))
+            return
+        if use_webapp:
+            back = HippoHTTPFlow.from_state(copy.deepcopy(callbacks[-1][2]), rig.session_manager)
+            if back.response is None or bytes(back.response.content or b"") != b"served by the web app":
+                ctx.violation("deferred:webapp-response-lost", "the web app's response did not come back with the flow",
+                              dict(wit, got=None if back.response is None else bytes(back.response.content or b"")[:40]))
+                return
+            ctx.count("deferred_webapp_flows")
+        ctx.count("deferred_releases")
+        ctx.cover("deferred_events", between)
+        ctx.nontrivial(("deferred", kind, event_type, scope, between, yields, use_webapp))
+        ctx.ev()
+    finally:
+        rig.close()
+
+
+def waiter_scenarios(ctx, level, how, kind):
+    """Flows taken through the session's / region's HTTP message handler instead of an addon hook: `wait_for()` with the
+    caller's own timeout.  A waiter that is served owns the flow until it releases it; a waiter that gave up (cancelled,
+    timed out, or both in either order) owns nothing - the next matching response belongs to nobody and goes straight back."""
+    rig = HTTPRig(addons=[])
+    wit = {"waiter_level": level, "waiter": how, "kind": kind}
+    try:
+        session, flow = build(rig, kind, "response")
+        cap = {"eq": "EventQueueGet", "seed": "Seed", "wrapper": "GetTexture", "upload": "UpdateScriptAgent"}[kind]
+        region = [r for r in session.regions if r.cap_urls.get("EventQueueGet")][0]
+        target = session.http_message_handler if level == "session" else region.http_message_handler
+        q = rig.flow_context.to_proxy_queue
+        served = {}
+
+        async def prepare():
+            fut = target.wait_for((cap,), timeout=0.02 if how != "served" else 5.0)
+            if how == "cancel_then_timeout":
+                fut.cancel()
+            if how != "served":
+                await asyncio.sleep(0.06)
+            if how == "timeout_then_cancel":
+                fut.cancel()
+            if fut.done() and not fut.cancelled():
+                fut.exception()
+            return fut
+        fut = rig.loop.run_until_complete(prepare())
+        q.log.clear()
+        q.items.clear()
+        rig.send_event("response", flow)
+        exc = rig.pump()
+        callbacks = [it for it in q.log if it[0] == "callback" and it[1] == flow.id]
+        if how == "served":
+            if not fut.done() or fut.cancelled() or fut.exception() is not None:
+                ctx.violation("waiter-not-served", "a pending wait_for() was not given the matching flow", dict(wit, exc=repr(exc)[:200]))
+                return
+            if callbacks:
+                ctx.violation("taken-flow-handed-back-early", "a flow a waiter took ownership of was handed back before the waiter "
+                              "released it", dict(wit, callbacks=len(callbacks)))
+                return
+            fut.result().resume()
+            callbacks = [it for it in q.log if it[0] == "callback" and it[1] == flow.id]
+            ctx.count("waiter_served_flows")
+        else:
+            ctx.count("waiter_abandoned_scenarios")
+        if len(callbacks) != 1:
+            ctx.violation("waiter-flow-not-handed-back-once:" + how + (":never" if not callbacks else ":more-than-once"),
+                          "a response flow was not handed back exactly once around a wait_for() on the HTTP message handler",
+                          dict(wit, callbacks=len(callbacks), exc=repr(exc)[:200]))
+            return
+        # and the one after it as well
+        session2_flow = build_more(rig, session, kind)
+        if session2_flow is not None:
+            rig.send_event("response", session2_flow)
+            rig.pump()
+            cb2 = [it for it in q.log if it[0] == "callback" and it[1] == session2_flow.id]
+            if len(cb2) != 1:
+                ctx.violation("waiter-flow-not-handed-back-once:" + how + ":later-flow",
+                              "a later response flow was not handed back exactly once after a wait_for() on the HTTP message handler",
+                              dict(wit, callbacks=len(cb2)))
+                return
+        ctx.nontrivial(("waiter", level, how, kind))
+        ctx.ev()
+    finally:
+        rig.close()
+
+
+def build_more(rig, session, kind):
+    """A second response flow for the same cap of the same session (no new sessions / regions)."""
+    if kind != "eq":
+        return None
+    flow = make_flow("https://sim1.example.invalid:12043/cap/eq", method=b"POST", content=llsd.format_xml({"ack": 7, "done": False}))
+    cap = CapData("EventQueueGet", weakref.ref([r for r in session.regions if r.cap_urls.get("EventQueueGet")][0]),
+                  weakref.ref(session), "https://sim1.example.invalid:12043/cap/eq", CapType.NORMAL)
+    flow.metadata["cap_data_ser"] = cap.serialize()
+    flow.metadata["needed_proxy_caps"] = []
+    flow.response = make_flow("http://x.invalid/", resp=True, resp_content=llsd.format_xml({"id": 8, "events": []}),
+                              resp_headers={"Content-Type": "application/llsd+xml"}).response
+    return flow
+
+
+def deferred_all(ctx):
+    n = 0
+    for kind in ("proxy_only", "seed", "eq", "asset", "wrapper", "temporary", "upload"):
+        for event_type in ("request", "response"):
+            if kind == "proxy_only" and event_type == "response":
+                continue
+            for scope in ("default", "unscoped"):
+                for between in DEFERRED_EVENTS:
+                    n += 1
+                    if not ctx.mine(n):
+                        continue
+                    deferred_release(ctx, kind, event_type, scope, between, yields=1 + n % 4, use_webapp=False)
+    for between in DEFERRED_EVENTS:
+        n += 1
+        if ctx.mine(n):
+            deferred_release(ctx, "proxy_only", "request", "default", between, yields=2, use_webapp=True)
+    for level in ("session", "region"):
+        for how in ("served", "timeout_only", "cancel_then_timeout", "timeout_then_cancel"):
+            for kind in ("eq", "seed", "upload"):
+                n += 1
+                if ctx.mine(n):
+                    waiter_scenarios(ctx, level, how, kind)
+
+
 def run(ctx):
     try:
         asyncio.get_event_loop_policy().get_event_loop()
     except Exception:
         asyncio.set_event_loop(asyncio.new_event_loop())
+    deferred_all(ctx)
     scenarios = [(k, e, b) for k in URL_KINDS for e in ("request", "response") for b in BEHAVIOURS]
     stride = ctx.pick(3, 1)
     try:
@@ -692,7 +930,11 @@ def replay(ctx, w):
         asyncio.get_event_loop_policy().get_event_loop()
     except Exception:
         asyncio.set_event_loop(asyncio.new_event_loop())
-    if w.get("e2e"):
+    if "waiter" in w:
+        waiter_scenarios(ctx, w["waiter_level"], w["waiter"], w["kind"])
+    elif "task_scope" in w:
+        deferred_release(ctx, w["kind"], w["event"], w["task_scope"], w["between"], w["yields"], w["webapp"])
+    elif w.get("e2e"):
         end_to_end(ctx, w["kind"], w["behaviour"], w["on"], w["ua"])
     elif "variant" in w:
         mitm_variants(ctx)
